@@ -120,8 +120,16 @@ func nativePrintf(e *Evaluator, args []*Value, this *Value) (*Value, error) {
 			if len(args)-1 < argIndex {
 				return nil, fmt.Errorf("missing argument %d", argIndex)
 			}
-			sb.WriteString(args[argIndex].PrettyString(false))
+			argStr := args[argIndex].PrettyString(false)
 			argIndex++
+
+			if widthSpec > 0 && len(argStr) < widthSpec {
+				argStr = strings.Repeat(padChar, widthSpec-len(argStr)) + argStr
+			} else if widthSpec < 0 && len(argStr) < -widthSpec {
+				argStr = argStr + strings.Repeat(padChar, -widthSpec-len(argStr))
+			}
+
+			sb.WriteString(argStr)
 		default:
 			return nil, fmt.Errorf("unknown format code %c", fmtStr[i])
 		}
